@@ -798,3 +798,37 @@ Proof.
     destruct (rebalance_valid ver ns p r olds nodes) as [l [E' _]]; try assumption. congruence.
   - apply rebalance_refuse_iff. exact Hnd.
 Qed.
+
+(* ---------- chains: every layout reachable by rebalancing on changing node sets ---------- *)
+Definition good_nodes (nodes : list (list N * tag)) : Prop :=
+  NoDup (map fst nodes) /\ ~ In [] (map fst nodes) /\ nodes <> [].
+
+(* the layouts the placement driver can be holding: the empty one (fresh namespace), or the result of a
+   rebalance from a reachable layout on any good node set (nodes lost and added in between) *)
+Inductive reachable (ver ns : bytes) (p r : N) : list (list (list N)) -> Prop :=
+| reach_fresh : reachable ver ns p r []
+| reach_step olds nodes l :
+    reachable ver ns p r olds -> good_nodes nodes ->
+    rebalance ver ns p r olds nodes = Ok l -> reachable ver ns p r l.
+
+Lemma valid_layout_olds_ok live p r l : valid_layout live p r l -> olds_ok p r l.
+Proof.
+  intros [HL HF]. split; [lia|]. eapply Forall_impl; [|exact HF]. intros nl [A [B _]]. split; [lia|exact B].
+Qed.
+
+Theorem reachable_olds_ok ver ns p r olds : reachable ver ns p r olds -> olds_ok (N.to_nat p) (N.to_nat r) olds.
+Proof.
+  induction 1 as [|olds nodes l _ IH [Hnd [Hne Hnn]] E].
+  - split; [simpl; lia|constructor].
+  - destruct (N.lt_ge_cases (N.of_nat (length nodes)) r) as [L|L].
+    + rewrite rebalance_refuse_iff in E by assumption. discriminate.
+    + destruct (rebalance_valid ver ns p r olds nodes Hnd Hne Hnn L IH) as [l' [E' V]].
+      rewrite E in E'. inversion E'; subst l'. eapply valid_layout_olds_ok. exact V.
+Qed.
+
+Theorem rebalance_chain_valid ver ns p r olds nodes :
+  reachable ver ns p r olds -> good_nodes nodes -> (r <= N.of_nat (length nodes))%N ->
+  exists l, rebalance ver ns p r olds nodes = Ok l /\ valid_layout (map fst nodes) (N.to_nat p) (N.to_nat r) l.
+Proof.
+  intros HR [Hnd [Hne Hnn]] L. apply rebalance_valid; try assumption. apply reachable_olds_ok with (ver := ver) (ns := ns). exact HR.
+Qed.
